@@ -464,7 +464,9 @@ func fxNumFloat(sym bool) fxVal {
 		verifnd.Assume(f == f) // NaN never equals itself: interface comparisons in the invariant would alarm
 		return fxVal{f, ast.Float}
 	}
-	return fxVal{float64(2.5), ast.Float}
+	// fixed representatives: an ordinary value and two whose shortest text needs an exponent
+	// in %g / %e notation (the string form of a float is plain decimal notation)
+	return fxVal{[]float64{2.5, 0.00001, 1e21}[verifnd.Choice(3)], ast.Float}
 }
 
 // fxVarVal: value classes of a script variable. Classes 0..5 fixed, 6.. string samples.
